@@ -1,76 +1,34 @@
 import PedVerif.Spec.Callable
 /-!
-Named regions of the (annotation, value) space in which the *unchanged* code is known to deviate from `Spec.conforms`
-(always towards rejecting / raising: the deviations are completeness defects, property C02).  They are syntactic shapes, not
-"where the theorem happens to hold": inside a region there are conforming and non-conforming values.  `Props/Callable.lean`
-proves completeness outside the regions and a `decide` witness of a rejected conforming value inside each of them; the
-driver reports the regions of every case so that the harness can classify a failure.
+Named regions of the (annotation, value) space in which the code is known to deviate from `Spec.conforms`.
+
+Tree with the repairs F1-F5 (`fixes/Callable_fix_F1.diff` … `F5.diff`): the regions `callableWithoutName`, `abcConvert`,
+`unionNotExactMember`, `declaredUnionVsClass`, `genericVsRawClass` of the unrepaired tree are gone (positive theorems in
+`Props/Callable.lean`); one region is left, a completeness defect (property C02).  It is a syntactic shape: inside it there
+are conforming values (every coroutine function whose parameters fit) and non-conforming ones.
 -/
 namespace PedVerif.Callable.Spec
 open PedVerif.Callable
 
 inductive Region where
-  | unionNotExactMember      -- expected type is a Union and the declared type (or a member of the declared Union) is not literally one of its members: `_is_subtype` tests `in`, not `issubclass`
-  | declaredUnionVsClass     -- declared type is a Union, expected type is a class / generic (not a top type): `issubclass(typing.Union, cls)` raises (typing spelling) / is answered False (X | Y)
-  | genericVsRawClass        -- declared `G[t]`, expected a plain class (`List[int]` vs `list`): the numbers of type arguments differ
-  | callableWithoutName      -- a callable without `__name__` (functools.partial, instance with `__call__`): `_is_lambda` raises AttributeError
   | asyncVsTop               -- coroutine function vs `Callable[.., Any]` / `Callable[.., object]`: only Awaitable / Coroutine are looked at
-  | abcConvert               -- `collections.abc.Callable[[A1..An], R]` with n ≠ 1 (`convert_to_typing_types` raises TypeError) or with a bare `list` / `dict` / … among its arguments (ValueError)
 deriving DecidableEq, Repr
 
 def Region.name : Region → String
-  | .unionNotExactMember => "unionNotExactMember"
-  | .declaredUnionVsClass => "declaredUnionVsClass"
-  | .genericVsRawClass => "genericVsRawClass"
-  | .callableWithoutName => "callableWithoutName"
   | .asyncVsTop => "asyncVsTop"
-  | .abcConvert => "abcConvert"
 
-/-- region of a (declared, expected) pair of types, if any -/
-def subRegion (env : Env) : TA → TA → Option Region
-  | .cls c, .union _ ds => if ds.contains c then none else some .unionNotExactMember
-  | .any, .union _ _ => some .unionNotExactMember
-  | .union _ cs, .union _ ds => if cs.all ds.contains then none else some .unionNotExactMember
-  | .union _ _, t => if isTop env t then none else some .declaredUnionVsClass
-  | .gen1 _ _, .union _ _ => some .unionNotExactMember
-  | .gen3 _ _, .union _ _ => some .unionNotExactMember
-  | .gen1 _ s, .gen1 _ t => subRegion env s t
-  | .gen3 _ s, .gen3 _ t => subRegion env s t
-  | .gen1 _ _, .cls d => if d == env.object then none else some .genericVsRawClass
-  | .gen3 _ _, .cls d => if d == env.object then none else some .genericVsRawClass
-  | _, _ => none
-
-def declRegion (env : Env) : Ann → TA → Option Region
-  | .empty, _ => none
-  | .none, t => subRegion env (.cls env.noneCls) t
-  | .ty s, t => subRegion env s t
-
-def paramRegions (env : Env) (ps : List FParam) (ts : List TA) : List Region :=
-  (ps.zip ts).filterMap (fun pt => declRegion env pt.1.ann pt.2)
-
-def retRegions (env : Env) (coro : Bool) (ret : Ann) (eret : TA) : List Region :=
-  if coro then
-    (if isTop env eret then [.asyncVsTop] else
-     match eret with
-     | .gen1 _ t => (declRegion env ret t).toList
-     | .gen3 _ t => (declRegion env ret t).toList
-     | _ => [])
-  else (declRegion env ret eret).toList
+def retRegions (env : Env) (coro : Bool) (eret : TA) : List Region :=
+  if coro && isTop env eret then [.asyncVsTop] else []
 
 def leafRegions (env : Env) (v : CVal) (e : Exp) : List Region :=
   match v with
-  | .callable name sig coro =>
-    (if name == .missing then [.callableWithoutName] else []) ++
-    (match sig with
-     | .ok ps ret => (match e.ps with | some ts => paramRegions env ps ts | none => []) ++ retRegions env coro ret e.ret
-     | _ => [])
+  | .callable _ (.ok _ _) coro => retRegions env coro e.ret
   | _ => []
 
 def regions (env : Env) (x : Expected) (v : Val) : List Region :=
-  (if x.sp == .abc && (abcRoute env x.e).isSome then [.abcConvert] else []) ++
-  (match v with
-   | .leaf l => leafRegions env l x.e
-   | .list xs => xs.flatMap (fun l => leafRegions env l x.e)
-   | .dict kvs => kvs.flatMap (fun kv => leafRegions env kv.2 x.e))
+  match v with
+  | .leaf l => leafRegions env l x.e
+  | .list xs => xs.flatMap (fun l => leafRegions env l x.e)
+  | .dict kvs => kvs.flatMap (fun kv => leafRegions env kv.2 x.e)
 
 end PedVerif.Callable.Spec
